@@ -70,8 +70,15 @@ class Driver:
     def __init__(self):
         if not os.path.exists(DRIVER):
             raise DriverError("driver binary missing")
+        def _die_with_parent():   # a killed harness must not leave a computing driver behind
+            try:
+                import ctypes
+                import signal
+                ctypes.CDLL("libc.so.6").prctl(1, signal.SIGKILL)
+            except Exception:
+                pass
         self.p = subprocess.Popen([DRIVER], stdin=subprocess.PIPE, stdout=subprocess.PIPE,
-                                  text=True, bufsize=1)
+                                  text=True, bufsize=1, preexec_fn=_die_with_parent)
         self.requests = 0
         self.log = []
 
